@@ -50,6 +50,9 @@ THEOREMS = [
     "C06_kinds_head_partial",
     "C06_kinds_head_witness",
     "C06_kinds_vanish_witness",
+    "C06_nest_rerun",
+    "C06_nest_rerun_no_downstream",
+    "C06_nest_rerun_pinned_witness",
 ]
 RULE = (
     "(dag) random DAGs (2..N term nodes) x every kind of fault position (starting node, inner node, two at once) x "
@@ -61,7 +64,9 @@ RULE = (
     "(LookupError/IndexError/KeyError and subclasses, StopIteration, ReadinessError and look-alikes, FailedChildError "
     "raised by a leaf, concurrent.futures errors, ...), random and laziest schedules (the sibling completes after the "
     "failure has come up), optional successful pre-run; a sweep class x depth x starting/signal-started x "
-    "local/executor on a fixed chain; (flow) hand-wired flows: run signals wired by hand, nodes triggered several "
+    "local/executor on a fixed chain; re-run HISTORIES of such trees (failed flags cleared, another fault set, other "
+    "executors, another schedule, 1-2 further runs; all-of joins left/right -> combine at depth 0..3 with the failing "
+    "side alternating over 4 runs), every run of a history judged by every clause and co-simulated; (flow) hand-wired flows: run signals wired by hand, nodes triggered several "
     "times, `If` nodes with branches, a failing `If` (those without executor children co-simulated on C02's machine); "
     "(base) the same trees with KeyboardInterrupt; (fine) DAGs with failing executor children, the done-callbacks on "
     "their own threads stepped in two halves, random and DFS schedules of the halves; (ktab) Boom / KeyboardInterrupt / "
@@ -152,6 +157,7 @@ def gen_cases(rng, tier):
         rest = [c for c in sweep if c not in must]
         sweep = must + rng.sample(rest, 40)
     yield from sweep
+    yield from join_histories((0, 1, 2) if quick else (0, 1, 2, 3), quick)
     # every completion order at every schedule point (stateless DFS), small trees
     for _ in range(6 if quick else 150):
         c = gen_nest_case(rng, rng.choice([1, 1, 2]), N.EXCEPTIONS, n_max=3)
@@ -409,7 +415,7 @@ def run_impl(case):
                  "fault_on_exec": sum(1 for l in hit if l in case["exec"]),
                  "macro_on_exec": sum(1 for l in case["exec"] if l not in r["calls"]),
                  "late_completions": len(r["trace"]), "prerun": int(bool(case.get("prerun"))),
-                 "several_faults": int(len(hit) > 1),
+                 "several_faults": int(len(hit) > 1), "history_runs": len(r.get("more", ())),
                  **{f"exc:{case['fails'][l]}": 1 for l in hit},
                  **({"nest_dfs_cases": 1, "nest_dfs_schedules": len(runs)} if runs else {})}
         return {"obs": _nest_obs(case, r), "r": r, "runs": runs or [r], "stats": stats}
@@ -501,6 +507,14 @@ def model_input(case, impl):
             if k:
                 lines.append("reset")
             lines.extend(_nest_model_input(case, r))
+            for step, rk in zip(case.get("history", ()), r.get("more", ())):
+                for p, pr in _walk(case["prog"]):
+                    n = pr["n"]
+                    lines.append(f"sel {_pstr(p)}")
+                    lines.append("exec " + " ".join(str(i) for i in range(n) if _pstr(p + (i,)) in step["exec"]))
+                    lines.append("fails " + " ".join(str(i) for i in range(n) if _pstr(p + (i,)) in step["fails"]))
+                lines.append("nsched " + " ".join(rk["trace"]))
+                lines.append("nrerun")
         return lines
     if case["kind"] != "dag" or case.get("prerun") or case.get("force_starters"):
         return ["n 0", "run"]
@@ -550,6 +564,8 @@ def diff(case, impl, model):
             return {"index": -1, "impl": f"{len(impl['runs'])} runs", "model": f"{len(chunks)} chunks"}
         for r, ch in zip(impl["runs"], chunks):
             mine = _nest_obs(case, r)
+            for k, rk in enumerate(r.get("more", ())):
+                mine = mine + ["rerun"] + _nest_obs(case, rk)[1:]
             if mine == ch:
                 continue
             for k, (a, b) in enumerate(zip(mine, ch)):
@@ -602,6 +618,15 @@ def oracle(case, impl):
             f = _nest_oracle(case, rr)
             if f:
                 return f
+            # every later run of the history is judged by the same clauses, with ITS fault set
+            for k, (step, rk) in enumerate(zip(case.get("history", ()), rr.get("more", ()))):
+                f = _nest_oracle({**case, "fails": step["fails"], "exec": step["exec"]}, rk)
+                if f:
+                    return [{**x, "detail": f"run {k + 2} of the history: " + x["detail"],
+                             "signature": {**x["signature"], "rerun": True}} for x in f]
+            if len(rr.get("more", ())) < len(case.get("history", ())):
+                return [{"clause": "rerun-not-possible", "detail": "the last run left something running",
+                         "signature": {"clause": "rerun-not-possible", "kind": "nest"}}]
         return []
     if case["kind"] == "flow":
         return _flow_oracle(case, r)
@@ -805,7 +830,18 @@ def gen_nest_case(rng, depth, classes, n_max=4, base=False):
     # 0 = "nobody completes at this emission"; an empty list = the laziest schedule: a job completes only when
     # some loop has nothing else to do
     lazy = rng.random() < 0.4
-    return {"kind": "nest", "prog": prog, "fails": fails, "exec": sorted(ex),
+    # a re-run HISTORY: the same tree run again (failed flags cleared) with another fault set, other executors,
+    # another schedule — once or twice
+    history = []
+    if not base and rng.random() < 0.4:
+        for _ in range(rng.choice([1, 1, 2])):
+            fl2 = rng.sample(leaves, min(rng.choice([0, 1, 1, 1, 2]), len(leaves)))
+            history.append({"fails": {l: rng.choice(classes) for l in fl2},
+                            "exec": sorted([l for l in leaves if rng.random() < (0.6 if l in lonely else 0.25)] +
+                                           [c for c in comps if rng.random() < 0.2]),
+                            "choices": [] if rng.random() < 0.4 else [rng.choice([0, 0, 0, 1, 2, 3]) for _ in range(60)]})
+    hist = {"history": history} if history else {}
+    return {"kind": "nest", **hist, "prog": prog, "fails": fails, "exec": sorted(ex),
             "mode": rng.choice(["ctl", "ctl", "ctl-cloudpickle"]),
             "choices": [] if lazy else [rng.choice([0, 0, 0, 1, 2, 3]) for _ in range(60)],
             "prerun": rng.random() < 0.3, **({"base": True} if base else {})}
@@ -991,12 +1027,39 @@ def _run_nest(case):
         before = {p: term_str(nodes[p].outputs.o.value) for p in leaf_gid}
         N.CALL_LOG.clear()
         N.EPOCH[0] = 1
-    for l, key in case["fails"].items():
+    first = _nest_one_run(case, case, wf, nodes, progs, composites, gid_path, leaf_gid, before)
+    more, last = [], first
+    for step in case.get("history", ()):
+        # the next run of the history: possible only if the last one left nobody running
+        if any(run for run, _f in last["flags"].values()) or last["late_jobs"] or last["outcome"].startswith("stuck"):
+            break
+        for n in nodes.values():
+            n.failed = False  # as users do before they try again
+            n.executor = None
+        N.CALL_LOG.clear()
+        N.EXC.clear()
+        N.RAISED.clear()
+        N.EPOCH[0] += 1
+        prev = {_ppath(k): v for k, v in last["outs"].items()}
+        last = _nest_one_run(case, step, wf, nodes, progs, composites, gid_path, leaf_gid, prev)
+        more.append(last)
+    first["more"] = more
+    return first
+
+
+def _nest_one_run(case, step, wf, nodes, progs, composites, gid_path, leaf_gid, before):
+    """one run of the outermost composite with the fault table / executors / schedule of `step`"""
+    import pyiron_workflow.nodes.composite as comp
+
+    from . import nodes_c06 as N
+    from .execsim import CtlExecutor, Instrument, Stuck, term_str
+
+    for l, key in step["fails"].items():
         N.EXC[leaf_gid[_ppath(l)]] = key
-    sched = _Sched(list(case["choices"]), ident=lambda owner: _pstr(_node_path(owner)), late=set(case.get("late", ())))
+    sched = _Sched(list(step["choices"]), ident=lambda owner: _pstr(_node_path(owner)), late=set(case.get("late", ())))
     exe = CtlExecutor(sched, case.get("mode", "ctl"))
     exe_plain = CtlExecutor(sched, "ctl")
-    for l in case["exec"]:
+    for l in step["exec"]:
         p = _ppath(l)
         nodes[p].executor = exe if p in leaf_gid else exe_plain
     wiring = {}
@@ -1795,3 +1858,37 @@ def _ktab_oracle(case, r):
         fails.append({"clause": "node-left-running", "detail": f"siblings left out {k['aborted']} {r['late_jobs']}",
                       "signature": sig("left-running")})
     return fails
+
+
+def join_histories(depths, quick):
+    """all-of joins under re-run histories: at the bottom of `depth` nested composites (0 = the workflow itself)
+    `left`, `right` -> `combine` (+ an independent child); run 1 one side raises, run 2 the other, run 3 nobody —
+    every order, each side locally or on the executor, the macros on the path locally or on the executor"""
+    import itertools
+
+    for depth in depths:
+        def level(k):
+            if k == 0:
+                return {"n": 4, "order": [0, 1, 2, 3],
+                        "slots": {"0": [[], [], []], "1": [[], [], []], "2": [[0], [1], []], "3": [[], [], []]},
+                        "kids": {}, "gid": {"0": None, "1": None, "2": None, "3": None}, "ret": 2}
+            return {"n": 3, "order": [0, 1, 2], "slots": {"0": [[], [], []], "1": [[0], [], []], "2": [[1], [], []]},
+                    "kids": {"1": level(k - 1)}, "gid": {"0": None, "2": None}, "ret": 2}
+
+        prog = level(depth)
+        _number(prog)
+        base = "1." * depth
+        left, right = base + "0", base + "1"
+        macros = [("1." * k)[:-1] for k in range(1, depth + 1)]
+        for first, ex_l, ex_r, ex_m in itertools.product((left, right), (False, True), (False, True), (False, True)):
+            if ex_m and not macros:
+                continue
+            if quick and ex_l and ex_r:
+                continue
+            second = right if first == left else left
+            ex = ([left] if ex_l else []) + ([right] if ex_r else []) + (macros if ex_m else [])
+            yield {"kind": "nest", "prog": prog, "fails": {first: "Boom"}, "exec": ex, "mode": "ctl", "choices": [],
+                   "prerun": False,
+                   "history": [{"fails": {second: "KeyError"}, "exec": ex, "choices": []},
+                               {"fails": {}, "exec": [], "choices": []},
+                               {"fails": {first: "IndexError"}, "exec": ex, "choices": []}]}
